@@ -117,3 +117,148 @@ def build_for(pid, tier):
                        descr='prove-commit ledger step: pledge total += sum of the new sector pledges, deposits released exactly, power actor told exactly the new pledge, no power credited yet, weights = space x duration',
                        bounds='%d pre-commitment(s); CUTS: initial_pledge_for_power / daily_proof_fee / qa_power_for_weight (arbitrary amounts), put_sectors (captured), assign_sectors_to_deadlines' % n, max_paths=100000)
             for n in ([1, 2] if tier == 'quick' else [1, 2, 3])]
+
+
+# ---- prove_commit_sectors_ni (non-interactive PoRep): the whole method ----------------------------------------------------------
+# CUTS (declared): validate_seal_aggregate_proof / verify_aggregate_seal (proof checks: pass), deadline_is_mutable /
+# consensus_fault_active / can_prove_commit_ni_seal_proof (arbitrary verdicts), the aggregate-proof-type comparison (arbitrary),
+# validate_ni_sectors (all n sectors valid), raw_power_for_sector, initial_pledge_for_power, daily_proof_fee (arbitrary amounts >= 0),
+# network queries (typed answers), allocate_sector_numbers / put_sectors (captured) / assign_sectors_to_deadline (sector tables),
+# State::deadline_info (contract of the clock obligation).
+
+def run_prove_ni(n):
+    def run(E):
+        from . import C13
+        from .miner_cron import _pp
+        rt, rtref = new_rt(E)
+        pre = mk_miner_state(E, 0)
+        rt.state = pre['st']
+        E.ctx.assume(rt.balance >= pre['pcd'] + pre['lf'] + pre['ip'])
+        E.ctx.assume(z3.And(rt.epoch >= 0, rt.epoch < 2**40))
+        E.ctx.assume(z3.Not(C13.bz(C13.view(E, pre['info'])['pw_some'])))
+        env = E.ctx.env
+        env['balance0'] = rt.balance
+        env['n'] = n
+        ST = SF()
+        env['cron_active0'] = fget(E, pre['st'], ST['deadline_cron_active'], 'bool')
+        okc = lambda E2, c: ok(UNIT, c.dest_ty)
+        E.cuts['validate_seal_aggregate_proof'] = okc
+        E.cuts['verify_aggregate_seal'] = okc
+        verdicts = env.setdefault('verdicts', {})
+
+        def mkb(nm):
+            def cut(E2, c):
+                b = E2.ctx.fresh_bool(nm)
+                verdicts[nm] = b
+                return b
+            return cut
+        for pre_ in ('', 'deadlines::', 'policy::'):
+            E.cuts[pre_ + 'deadline_is_mutable'] = mkb('deadline_mutable')
+            E.cuts[pre_ + 'can_prove_commit_ni_seal_proof'] = mkb('ni_proof_type_allowed')
+        E.cuts['consensus_fault_active'] = mkb('consensus_fault_active')
+        E.cuts['State::current_proving_period_start'] = lambda E2, c: E2.materialize('i64', E2.ctx.fresh_name('period_start'))
+        E.cuts['<RegisteredAggregateProof as PartialEq>::ne'] = mkb('aggregate_type_wrong')
+        NI = Fields('actors/miner/src/types.rs', 'SectorNIActivationInfo')
+        secs = [StructV('types::SectorNIActivationInfo', {}, lazy='ni%d' % i) for i in range(n)]
+
+        def cut_validate(E2, c):
+            br = StructV('BatchReturn', {0: IntV(n, 'u32'), 1: VecV([], 'Vec<FailCode>')})
+            return ok(StructV('tuple', {0: br, 1: VecV([], 'Vec<SectorSealProofInput>'), 2: models_fvm.BitFieldV('ni_sector_numbers')}), c.dest_ty)
+        E.cuts['validate_ni_sectors'] = cut_validate
+        PW = Fields('actors/miner/src/ext.rs', 'CurrentTotalPowerReturn')
+
+        def cut_pow(E2, c):
+            rs = E2.materialize('i64', E2.ctx.fresh_name('pow.ramp_start_epoch'))
+            E2.ctx.assume(z3.And(rs.v > -2**40, rs.v < 2**40))       # environment contract: epochs reported by the power actor are chain epochs
+            return ok(StructV('ext::power::CurrentTotalPowerReturn', {PW['ramp_start_epoch']: rs}, lazy=E2.ctx.fresh_name('pow')), c.dest_ty)
+        E.cuts['request_current_total_power'] = cut_pow
+        E.cuts['request_current_epoch_block_reward'] = lambda E2, c: ok(LazyV(E2.ctx.fresh_name('rew'), 'ext::reward::ThisEpochRewardReturn'), c.dest_ty)
+        pledge = z3.Int('sector_initial_pledge')
+        E.ctx.assume(pledge >= 0)
+        env['pledge'] = pledge
+        for pre_ in ('', 'monies::', 'policy::'):
+            E.cuts[pre_ + 'initial_pledge_for_power'] = lambda E2, c: BigV(pledge)
+            E.cuts[pre_ + 'daily_proof_fee'] = lambda E2, c: BigV(z3.Int('daily_fee'))
+            E.cuts[pre_ + 'raw_power_for_sector'] = lambda E2, c: BigV(z3.Int('raw_power'))
+        E.ctx.assume(z3.Int('daily_fee') >= 0)
+        E.cuts['State::allocate_sector_numbers'] = okc
+        captured = env.setdefault('new_sectors', [])
+
+        def cut_put(E2, c):
+            captured.extend([E2.deref(x) for x in E2.deref(c.args[2]).items])
+            return ok(UNIT, c.dest_ty)
+        E.cuts['State::put_sectors'] = cut_put
+        E.cuts['State::assign_sectors_to_deadline'] = okc
+        DI = Fields('actors/miner/src/deadline_info.rs', 'DeadlineInfo')
+
+        def cut_di(E2, c):
+            idx, op = z3.Int('clock.window'), z3.Int('clock.open')
+            E2.ctx.assume(z3.And(idx >= 0, idx < 48, op <= rt.epoch, rt.epoch < op + 60, op > -2**41))
+            I = lambda v, ty='i64': IntV(v, ty)
+            env['di_open'] = op
+            return StructV('deadline_info::DeadlineInfo', {DI['current_epoch']: I(rt.epoch), DI['period_start']: I(op - 60 * idx), DI['index']: I(idx, 'u64'), DI['open']: I(op),
+                                                           DI['close']: I(op + 60), DI['challenge']: I(op - 20), DI['fault_cutoff']: I(op - 70),
+                                                           DI['w_post_period_deadlines']: I(48, 'u64'), DI['w_post_proving_period']: I(2880), DI['w_post_challenge_window']: I(60),
+                                                           DI['w_post_challenge_lookback']: I(20), DI['fault_declaration_cutoff']: I(70)})
+        E.cuts['State::deadline_info'] = cut_di
+        install_bib_cut(E)
+        rt.send_hook = lambda E2, rt2, rec, nm: ('ok', None)
+        PP = Fields('actors/miner/src/types.rs', 'ProveCommitSectorsNIParams')
+        pdl = E.materialize('u64', 'params.proving_deadline')
+        params = StructV('types::ProveCommitSectorsNIParams', {PP['sectors']: VecV(secs, 'Vec<SectorNIActivationInfo>'), PP['proving_deadline']: pdl}, lazy='params')
+        env['pdl'] = pdl.v
+        fn = find_fn(E, MINER, 'prove_commit_sectors_ni')
+        return E.run_function(fn, [rtref, params]), rt
+    return run
+
+
+def props_prove_ni(E, res):
+    from .miner_cron import POWER, ENROLL_CRON, UPDATE_CLAIMED_POWER
+    env = res.ctx.env
+    rt, pre = env['rt'], env['pre']
+    ctx = res.ctx
+    ST = SF()
+    if res.kind != 'return':
+        return [tagged('ALL', 'no panic (%s)' % str(res.info)[:60], False)]
+    if is_err(res.value):
+        return [bib_prop(res), tagged('C03', 'a refused NI prove-commit commits nothing', rt.commits == 0)]
+    n, pledge = env['n'], env['pledge']
+    SO = Fields('actors/miner/src/types.rs', 'SectorOnChainInfo')
+    led = ledgers(E, rt.state)
+    new = env.get('new_sectors', [])
+    v = env.get('verdicts', {})
+    P = [tagged('C03', 'one sector is recorded per valid activation', len(new) == n),
+         tagged('C03,C01', "the initial-pledge total grows by exactly the sum of the new sectors' initial pledges", led['ip'] == pre['ip'] + n * pledge),
+         tagged('C03', 'each sector records the pledge that was locked for it', z3.And(*[big(E, fget(E, s, SO['initial_pledge'], TOKEN)) == pledge for s in new]) if new else z3.BoolVal(False)),
+         tagged('C03', 'deposits and vesting funds are untouched; the fee debt is repaid in full', z3.And(led['pcd'] == pre['pcd'], led['lf'] == pre['lf'], led['fd'] == 0)),
+         tagged('C03,C01', 'the whole new pledge is covered by unlocked balance', env['balance0'] - pre['pcd'] - pre['lf'] - pre['ip'] >= n * pledge)]
+    burns, pl, others = classify_sends(rt, ctx)
+    sent = sum(pledge_delta_of(E, s) for s in pl) if pl else 0
+    P.append(tagged('C03', 'the power actor is told exactly the new pledge', sent == n * pledge))
+    P.append(tagged('C15,C01', 'the fee debt is burnt', (sum(s.value for s in burns) if burns else 0) == pre['fd']))
+    P.append(tagged('C02', 'no power is credited at activation (power starts with the first Window PoSt)', all(implied(ctx, b_not(b_and(s.to.key == POWER, zv(s.method) == UPDATE_CLAIMED_POWER))) for s in rt.sends)))
+    P.append(tagged('C01', 'miner stays solvent: balance covers deposits + vesting + pledge', solvency(rt, led)))
+    P.append(tagged('C02,C05', 'sectors are committed only into a deadline of the proving period that is not being proven, outside a consensus-fault period, with an allowed NI proof type',
+                    z3.And(env['pdl'] < 48, v.get('deadline_mutable', z3.BoolVal(False)), z3.Not(v.get('consensus_fault_active', z3.BoolVal(True))), v.get('ni_proof_type_allowed', z3.BoolVal(False)))))
+    for s in new:
+        P.append(tagged('C10,C02', 'a new NI sector carries no deal weight and is activated now', z3.And(big(E, fget(E, s, SO['deal_weight'], 'BigInt')) == 0, big(E, fget(E, s, SO['verified_deal_weight'], 'BigInt')) == 0,
+                                                                                                         fget(E, s, SO['activation'], 'i64').v == rt.epoch, fget(E, s, SO['power_base_epoch'], 'i64').v == rt.epoch)))
+    # C05: the proving-deadline cron is running afterwards: flag set, and enrolled now iff it was not running
+    enrol = [s for s in rt.sends if implied(ctx, b_and(s.to.key == POWER, zv(s.method) == ENROLL_CRON))]
+    a0 = env['cron_active0']
+    a0 = a0 if is_sym(a0) else z3.BoolVal(bool(a0))
+    a1 = fget(E, rt.state, ST['deadline_cron_active'], 'bool')
+    P.append(tagged('C05', 'the miner is on the cron schedule afterwards: flag set, callback enrolled exactly when none was running', z3.And(a1 if is_sym(a1) else z3.BoolVal(bool(a1)), a0 == z3.BoolVal(len(enrol) == 0), z3.BoolVal(len(enrol) <= 1))))
+    for s in enrol:
+        obj = s.params.obj if isinstance(s.params, BlockV) else None
+        if obj is not None and 'di_open' in env:
+            P.append(tagged('C05', 'the first callback is for the last epoch of the current deadline', fget(E, obj, 0, 'i64').v == env['di_open'] + 59))
+    return P
+
+
+def build_prove_ni(pid, tier):
+    wrap = lambda f: (lambda E, res: for_property(pid, f(E, res)))
+    return [Obligation('miner.prove_commit_sectors_ni[sectors=%d]' % n, run_prove_ni(n), wrap(props_prove_ni),
+                       descr='NI prove-commit: pledge total += n x sector pledge (each sector records it, the power actor is told it, unlocked balance covers it), fee debt repaid and burnt, no power credited, cron enrolled iff not running',
+                       bounds='%d valid sector(s); CUTS: proof checks, admission verdicts, validate_ni_sectors (all valid), pledge / fee / power formulas (arbitrary amounts), sector tables, deadline clock; sends succeed' % n, max_paths=100000, wall_s=300)
+            for n in ([1, 2] if tier == 'quick' else [1, 2, 3])]
